@@ -28,12 +28,13 @@ func (c *fixedClock) AfterFunc(d time.Duration, f func()) collector.VerifTimer {
 }
 
 const (
-	variantNone = iota
-	variantA    // one unsigned32
-	variantB    // two unsigned16 (same record size: the decoded shape reveals which was used)
-	variantC    // one unsigned32 with the same element id and length as A but enterprise 29305 (reverse element)
-	variantS    // one variable-length string (interfaceName) DECLARED variable on the wire
-	variantS4   // the same registry string declared with fixed length 4 on the wire (the library keeps the registry's variable length)
+	variantNone  = iota
+	variantA     // one unsigned32
+	variantB     // two unsigned16 (same record size: the decoded shape reveals which was used)
+	variantC     // one unsigned32 with the same element id and length as A but enterprise 29305 (reverse element)
+	variantS     // one variable-length string (interfaceName) DECLARED variable on the wire
+	variantEmpty // a zero-field template: nothing can be decoded against it
+	variantS4    // the same registry string declared with fixed length 4 on the wire (the library keeps the registry's variable length)
 )
 
 type entry struct {
@@ -116,7 +117,18 @@ func Check_History() {
 	if sx.Tier() > 0 {
 		k = 4
 	}
-	k = sx.Param("k", k)
+	history(sx.Param("k", k), nil)
+}
+
+// Check_HistoryAfterUse: one level deeper for the histories that matter most
+// for replacement: they start with a template for some key and a data set (for
+// a key that may or may not be the same - the solver's choice), followed by
+// 2 (quick) / 3 (thorough) free messages.
+func Check_HistoryAfterUse() {
+	history(4+sx.Tier(), []int{1, 3})
+}
+
+func history(k int, forced []int) {
 	proto := []string{"tcp", "udp"}[sx.Choose("protocol", 2)]
 	var clk collector.VerifClock
 	if proto == "udp" {
@@ -125,11 +137,43 @@ func Check_History() {
 	cp, err := collector.VerifNewCollectingProcess(collector.CollectorInput{Protocol: proto, Address: "x", TemplateTTL: 100}, clk, 16)
 	sx.Assert(err == nil, "init")
 	m := &model{}
+	usedEmpty := false
+	extraKeys := 0 // (domain, 2) holding a zero-field template, if the library stored one
 	for step := 0; step < k; step++ {
 		dom := sx.U32("domain")
 		id := sx.U16("templateID")
 		sx.Assume(id >= 256)
-		switch sx.Choose("message", 3) + 1 {
+		nkinds := 3
+		if !usedEmpty {
+			nkinds = 4 // at most one zero-field template per history (keeps the history count in bounds)
+		}
+		var kind int
+		if step < len(forced) {
+			kind = forced[step]
+		} else {
+			kind = sx.Choose("message", nkinds) + 1
+		}
+		switch kind {
+		case 4:
+			// a template record with field count 0, for this key or with the record id
+			// 2 ("all templates" in RFC 7011 withdrawals, which the library does not
+			// implement): it defines an empty template for exactly its own (domain, id)
+			// - data for that key is refused from then on - and touches no other key
+			usedEmpty = true
+			rid := id
+			if sx.Choose("zeroFieldRecordID", 2) == 1 {
+				rid = 2
+			}
+			pkt := ref.Header(0, 0, 0, dom, 2, 0)
+			pkt = ref.U16(pkt, rid)
+			pkt = ref.U16(pkt, 0)
+			cp.VerifDecodePacket(pkt, "1.2.3.4:5") // accepted or refused: either way only (dom, rid) may change
+			if rid == id {
+				m.set(dom, id, variantEmpty)
+			} else {
+				extraKeys = 1
+			}
+			sx.Reach("zero-field-template")
 		case 1:
 			variant := []int{variantA, variantB, variantC, variantS, variantS4}[sx.Choose("variant", 5)]
 			_, err := cp.VerifDecodePacket(templatePkt(dom, id, variant), "1.2.3.4:5")
@@ -150,6 +194,11 @@ func Check_History() {
 				sx.Assume(v>>24 == 3)
 			}
 			msg, err := cp.VerifDecodePacket(pkt, "1.2.3.4:5")
+			if i >= 0 && m.es[i].variant == variantEmpty {
+				sx.Assert(err != nil, "data-decoded-against-a-zero-field-template")
+				sx.Reach("data-rejected-empty")
+				break
+			}
 			if i < 0 {
 				sx.Assert(err != nil, "data-decoded-without-a-template-for-its-key")
 				sx.Reach("data-rejected")
@@ -184,8 +233,23 @@ func Check_History() {
 	}
 	// final store equals the model
 	snap := cp.VerifTemplates()
-	sx.Assert(len(snap) == len(m.es), "stored-template-count")
+	nEmpty := 0
 	for _, e := range m.es {
+		if e.variant == variantEmpty {
+			nEmpty++
+		}
+	}
+	// a zero-field template may be stored as an empty definition or not stored at all
+	sx.Assert(len(snap) <= len(m.es)+extraKeys && len(snap) >= len(m.es)-nEmpty, "stored-template-count")
+	for _, e := range m.es {
+		if e.variant == variantEmpty {
+			for _, t := range snap {
+				if t.ObsDomainID == e.dom && t.TemplateID == e.id {
+					sx.Assert(len(t.IEs) == 0, "stale-definition-kept-after-zero-field-template")
+				}
+			}
+			continue
+		}
 		found := false
 		for _, t := range snap {
 			if t.ObsDomainID == e.dom && t.TemplateID == e.id {
@@ -210,5 +274,6 @@ func Check_History() {
 }
 
 var Table = map[string]runner.Entry{
-	"Check_History": {Setup: Setup, Fn: Check_History},
+	"Check_History":         {Setup: Setup, Fn: Check_History},
+	"Check_HistoryAfterUse": {Setup: Setup, Fn: Check_HistoryAfterUse},
 }
